@@ -157,7 +157,8 @@ func (c *checker) compare(prefix, extra string, t *typ, params string, b, repair
 		if got.err != nil {
 			rej = got.err
 		}
-		sig := fmt.Sprintf("%s-accept-mismatch fork_accepts=%v reference_accepts=%v%s err=%q", prefix, got.ok, want.ok, extra, sanitizeErr(rej))
+		// the rejecting side's error text names the feature; the malformation classes stay out of the signature
+		sig := fmt.Sprintf("%s-accept-mismatch fork_accepts=%v reference_accepts=%v err=%q", prefix, got.ok, want.ok, sanitizeErr(rej))
 		c.r.Violation(sig, fmt.Sprintf("type %s params %q input %s (%s): fork: %s; reference: %s", t.s, params, rep.Hex(b), origin, descr(got), descr(want)), cd)
 		return false
 	}
